@@ -1,34 +1,45 @@
 """C03 — queasars/circuit_evaluation/{circuit_evaluation,transpiling_primitives}.py against coq/theories/Eval/Pipeline.v
-(the hand-written model of the evaluation glue the C03 theorems are about).
+(the hand-written model of the evaluation glue the C03 theorems are about).  All 16 functions of the two files.
 
 Qiskit circuits, primitives, pubs, results and pass managers are OPAQUE: the generated definitions are polymorphic in
 the model's Section variables (`circ params wiring outcome obs bitfun layout : Type`) and take the model's oracles as extra
-parameters (`wid`, `compose`, `relabel`, `wmap`, the aggregation functions, qubit counts).  What is translated is the
-glue: composition order, zip / filter, pub construction, what is handed to the primitive, counts -> quasi-distribution,
-the alpha hand-over, and — in the transpiling wrappers — pub coercion / rebuild and the layout application.
+parameters (`wid`, `compose`, `relabel`, `wmap`, the aggregation functions `agg_op` / `agg_bits`, the qubit counts `cq oq bq`,
+`is_spo` = isinstance(operator, SparsePauliOp)).  What is translated is the glue: composition order, zip / filter, pub
+construction, what is handed to the primitive (incl. the shots / precision keywords), counts -> quasi-distribution, the
+alpha hand-over, the constructor guards, and — in the transpiling wrappers — pub coercion / rebuild, the layout
+application and the pass-on of `shots` / `precision`.
 
 Data representation (trusted):
 * a QuantumCircuit is a `circ`; `c.measure_all(inplace=False)` is the model's `measure_all wid c : circ * wiring` (the
   circuit with its final measurements); `a.compose(c, inplace=False)` is `compose a c`.  Only the literal `False` is
   representable for `inplace` / `validate` (with True the calls return None / validate): the keyword is typed by
-  `KwFalse`, a proof that the argument is `false`, so any other argument makes the generated module ill-typed.
-* `x is not None` on circuits and parameter lists is `true` (their spec types are not Optional: idiom non-optional-is-not-None).
+  `KwFalse`, built from a proof that the argument is `false`, so any other argument makes the generated module ill-typed.
+* `x is not None` on circuits and parameter lists is `true` (their spec types are not Optional: idiom non-optional-is-not-None;
+  no caller passes None).
 * a SamplerPub is `ppub = (circ * wiring) * params * option Z` (circuit, parameter values, the pub's own shots); the
   tuple `(circuit, values)` coerces to the pub without shots (`pub_of_tuple`); `SamplerPub.coerce` is the identity on
-  this representation (what it does to circuits / tuples / SamplerPubs is NOT covered).  A BaseSamplerV2 object is a
-  function `psampler = list ppub -> option Z -> result (list counts)` (pubs, the `shots` keyword); `.run(...)` is the
+  this representation (what it does to bare circuits / tuples / SamplerPub objects is NOT covered).  A BaseSamplerV2 object
+  is a function `psampler = list ppub -> option Z -> result (list counts)` (pubs, the `shots` keyword); `.run(...)` is the
   application, `.result()` reads the job's outcome (an exception of the job surfaces there), a SamplerPubResult is its
   counts dict: `res.data` is the one-entry dict {"meas": bits} (the register measure_all adds; other classical
-  registers are outside the model) and `bits.get_counts()` the dict `outcome -> int`.
+  registers are outside the model) and `bits.get_counts()` the dict `outcome -> int`.  The link file relates this to the
+  model's `sprim` by Qiskit's shots rule (`psampler_of`: the pub's shots, else run()'s, else the primitive's default).
 * an EstimatorPub is `pepub = circ * obs * params * option Q` (…, precision); a BaseEstimatorV2 object is
-  `pestimator = list pepub -> option Q -> result (list Q)`; a PubResult is the number `float(real(res.data.evs))`.
+  `pestimator = list pepub -> option Q -> result (list Q)`; a PubResult is the number `float(real(res.data.evs))`
+  (`real` keeps an ndarray, `float` makes the Python float: dropping `float` is a type error).
 * `QuasiDistribution(data=d, shots=s)` is `d` (an association list outcome -> float; the `shots` attribute is not read
-  by any translated function).
+  by any translated function; the str -> int key conversion of QuasiDistribution is not modelled: `outcome` is abstract).
 * the aggregation functions of C14 (`get_expectation_with_operator`, `get_expectation_with_bitstring_evaluator`) are the
-  oracles `agg_op`, `agg_bits : _ -> Q -> quasi -> result Q` (they can raise; linked to Agg/Cvar.v under C14).
+  oracles `agg_op`, `agg_bits : _ -> Q -> quasi -> result Q` (they can raise); C03Link.v instantiates `agg_op` with
+  Agg.Cvar.expectation_with_operator, the function C14Link.v links the Python callee to.
+* the evaluator / wrapper objects are records of EVERY attribute their constructors assign (`os_evaluator`, `es_evaluator`,
+  `bs_evaluator`, `tsampler`, `testimator`); the other methods read the attributes as construction-time parameters, and the
+  `_model` lemmas go through the record the constructor built.  `SerializableLock()` is `tt`.
 * a PassManager is `ppm = circ -> circ * option layout` (the transpiled circuit and its `.layout` attribute);
   `pm.run(c)` on a circuit with measurements also moves the wiring (`wmap`) as the model does;
   `observables.apply_layout(l)` is `relabel l obs` (`None`: unchanged).
+* `with self._pass_manager_lock:` is its body (idiom with-lock-as-block): mutual exclusion is NOT covered by the link (the
+  constructor must still create the lock: `tsampler` / `testimator` have the field).
 """
 from pytypes import BOOL, STR, UNIT, Q, Z, Dict, List, Nom, Opt, Tup
 
